@@ -61,7 +61,7 @@ var plans = map[string]Plan{
 	"C15": {Jobs: []Job{{World: "wbuild", Params: "mode=twin,max_targets=5", Share: 0.6}, {World: "wbuild", Params: "mode=faults,load=minimal,max_targets=5", Share: 0.4}}, Level: "exploration",
 		Rule: buildRule + faultRule + " C15: twin worlds - the same universe and history run in lock-step on machine A (load_outputs=all) and machine B (minimal), separate caches and workspaces, independent schedules: same exit status, same multiset of executed commands, every materialised output of a selected target equal; in both worlds every executed command must find its direct dependencies' outputs (also through aliases) present and current; second job: minimal mode under cache faults.",
 		Real: realBuild, Stub: stubBuild, Assume: append([]string{"twin runs exclude features that make the two worlds legitimately diverge: commands changing the shared external state (checks), external failures, cache-disabled builds, fail-fast"}, buildAssume...), QuickS: 45, ThoroughS: 1200},
-	"C08": {Jobs: []Job{{World: "wbuild", Params: "mode=remote,max_targets=5", Share: 0.6}, {World: "wbuild", Params: "mode=remote,focus=faults,max_targets=5", Share: 0.4}}, Level: "fault_enumeration",
+	"C08": {Jobs: []Job{{World: "wbuild", Params: "mode=remote,max_targets=5", Share: 0.4}, {World: "wbuild", Params: "mode=remote,max_targets=5,force=nonhermetic+taint+twins", Share: 0.25}, {World: "wbuild", Params: "mode=remote,focus=faults,max_targets=5", Share: 0.35}}, Level: "fault_enumeration",
 		Rule: buildRule + " C08: two machines with the same workspace identity (same absolute workspace path, checkouts swapped in and out, separate local cache roots) sharing an in-memory S3 object store behind grog's S3Client interface; histories interleave builds on A and B, edits, output wipes, and A optionally starting without the remote. After every successful build with the remote configured: every remote target result decodes and every blob it references (through trees) is present remotely; a machine may not execute what the remote certainly holds (shared cache model), restores byte-identical outputs, and its local cache holds the blobs it had to read. Fault runs: remote Get / Put (not applied, applied-but-error) / Head errors, mid-stream read errors, latency on the fake clock: degrade to a miss or a reported failure, never wrong bytes or a hang.",
 		Real: append([]string{"internal/caching/backends/remote_wrapper.go", "internal/caching/backends/s3.go (S3Cache key layout; NewS3CacheWithClient)"}, realBuild...), Stub: append([]string{"AWS SDK client: in-memory object store behind the S3Client interface (NewS3Cache's SDK construction replaced)", "GCS backend not simulated (no seam)"}, stubBuild...), Assume: buildAssume, QuickS: 45, ThoroughS: 1200},
 	"C10": {Jobs: []Job{{World: "wlock", Params: "", Share: 0.8}, {World: "wbuild", Params: "mode=faults,focus=crash,max_targets=4", Share: 0.2}}, Level: "exploration",
@@ -70,8 +70,8 @@ var plans = map[string]Plan{
 	"C07": {Jobs: []Job{{World: "wbuild", Params: "mode=faults,focus=crash,max_targets=5", Share: 0.65}, {World: "wbuild", Params: "max_targets=5", Share: 0.15}, {World: "wkv", Params: "", Share: 0.2}, {World: "wbuild", Params: "max_targets=4", Share: 0.4, Kind: "sweep", ThoroughOnly: true}}, Level: "fault_enumeration",
 		Rule: buildRule + faultRule + " W-kv job: the file-system cache backend alone under 2-4 concurrent client processes issuing Set/Get/Exists/Delete on 2-3 keys with unique values, I/O faults and client crashes; the history (invoke/return stamped with scheduler event numbers; failed or cut operations possibly applied) is checked with porcupine against a per-key register, plus 'no value is read that no Set wrote'. Thorough tier only: crash sweep - for successive seeds a fault-free history is probed for the number of file-system operations of each build invocation, then replayed once per operation index (the two longest invocations) with the process killed exactly there (coverage key crash_sweep_points). C07: after EVERY invocation (also killed ones) an offline audit of the cache directory: every cas/<d> (not tmp-*) hashes to d, every target/<k> decodes and every blob it references (through trees) is present; the follow-up builds must satisfy C01.",
 		Real: append([]string{"internal/caching/backends/fs.go under concurrent clients (W-kv)"}, realBuild...), Stub: stubBuild, Assume: append([]string{"porcupine result Unknown (timeout) is inconclusive and never reported", "crash model is process death with the page cache intact (kill -9): every completed file-system operation survives; loss of un-fsynced data on power failure is outside the statement and not injected", "a crash also kills the running target shells"}, buildAssume...), QuickS: 45, ThoroughS: 1200},
-	"C18": {Jobs: []Job{{World: "wbuild", Params: "mode=faults,focus=signal,max_targets=5", Share: 1}}, Level: "fault_enumeration",
-		Rule: buildRule + faultRule + " C18: SIGINT delivered through the real SetupCommand handler at a drawn step of loading / execution / output writing / shutdown: no command is forked after the handler task has finished, the process ends within 10 s simulated, interrupted targets must execute again in the next build, which must acquire the (stale) lock and satisfy C01.",
+	"C18": {Jobs: []Job{{World: "wbuild", Params: "mode=faults,focus=signal,max_targets=5", Share: 0.6}, {World: "wbuild", Params: "mode=faults,focus=signal,max_targets=5,force=trapterm+timeouts", Share: 0.4}}, Level: "fault_enumeration",
+		Rule: buildRule + faultRule + " C18: SIGINT delivered through the real SetupCommand handler at a drawn step of loading / execution / output writing / shutdown: no command is forked after the handler task has finished, the process ends within 10 s simulated, no target shell is left running un-killed when the process exits (incl. shells that trap SIGTERM: only SIGKILL stops those), interrupted targets must execute again in the next build, which must acquire the (stale) lock and satisfy C01.",
 		Real: realBuild, Stub: append([]string{"that a real sh and its children die on kill (the simulated command dies at once)"}, stubBuild...), Assume: buildAssume, QuickS: 45, ThoroughS: 1200},
 	"C01": {Jobs: []Job{{World: "wbuild", Params: "max_targets=6", Share: 0.7}, {World: "wbuild", Params: "mode=faults,max_targets=5", Share: 0.3}, {World: "wbuild", Params: "max_targets=10,long=1", Share: 0.25, ThoroughOnly: true}}, Level: "exploration", Rule: buildRule + faultRule + " C01: after every build that exits 0 every declared output of every selected target equals the model's clean build; a target that must execute for lack of a result for its current state did execute.",
 		Real: realBuild, Stub: stubBuild, Assume: buildAssume, QuickS: 45, ThoroughS: 1200},
